@@ -458,6 +458,10 @@ class Power(Gate):
 
     @property
     def matrix(self) -> sympy.Matrix:
+        if _is_negative_integer(self.exponent):
+            # Invert first, then take the positive power: for large negative integer
+            # powers of 2x2 matrices sympy 1.9 silently drops the inversion.
+            return self.wrapped_gate.matrix.inv() ** (-self.exponent)
         return self.wrapped_gate.matrix**self.exponent
 
     def controlled(self, num_control_qubits: int) -> "Gate":
@@ -489,6 +493,13 @@ class Power(Gate):
             inner_string = str(self.wrapped_gate)
 
         return inner_string + POWER_GATE_SYMBOL + str(self.exponent)
+
+
+def _is_negative_integer(exponent) -> bool:
+    try:
+        return bool(exponent < 0) and int(exponent) == exponent
+    except (TypeError, ValueError, OverflowError):
+        return False
 
 
 def _n_qubits(matrix):
